@@ -323,36 +323,109 @@ def date_reader(p):
     return f, out
 
 
+def date_samples():
+    """writer name -> [(text the writer emits, the datetime it must be re-read as)]"""
+    import datetime as dt
+    micro = [0, 1, 7, 10, 29, 57, 58, 70, 113, 700, 1001, 123456, 500000, 999999]
+    x = 12345
+    for _ in range(150):
+        x = (x * 1103515245 + 12345) % (1 << 31)
+        micro.append(x % 1000000)
+    days = [(1, 1, 1), (1900, 1, 1), (1999, 12, 31), (2000, 2, 29), (2024, 2, 29), (2038, 1, 19), (9999, 12, 31), (987, 6, 5)]
+    out = {'date': [], 'naive datetime': [], 'timezone-aware datetime': []}
+    for y, m, d in days:
+        v = dt.date(y, m, d)
+        out['date'].append((str(v), dt.datetime(y, m, d)))
+    times = [(0, 0, 0), (23, 59, 59), (12, 30, 1), (1, 2, 3)]
+    for i, us in enumerate(micro):
+        y, m, d = days[i % len(days)]
+        hh, mm, ss = times[i % len(times)]
+        v = dt.datetime(y, m, d, hh, mm, ss, us)
+        out['naive datetime'].append((str(v), v))
+    for off in (0, 60, -330, 345):
+        for us in (0, 123456):
+            v = dt.datetime(2020, 5, 17, 10, 20, 30, us, tzinfo=dt.timezone(dt.timedelta(minutes=off)))
+            out['timezone-aware datetime'].append((str(v), v))
+    return out
+
+
+def date_eval(p, f):
+    """get_date evaluated on what str() of dates and datetimes looks like -> writer name -> [(text, got)] read back wrongly"""
+    import datetime as dt
+    from ..pyeval import Interp, Unsupported, Raised
+
+    def quiet(*a, **k):
+        return None
+    quiet._pyeval_model = True
+    bad = {}
+    n = 0
+    for wname, rows in date_samples().items():
+        bad[wname] = []
+        for text, want in rows:
+            I = Interp(p)
+            I.safe_modules = {'datetime', 're'}
+            I.extra_names.update({'datetime': dt, 'print': quiet, 'sys': None})
+            try:
+                got = I.call(f, [text])
+            except Raised:
+                got = 'an exception'
+            except Unsupported as e:
+                raise AnalysisError('get_date is not evaluable: %s' % e)
+            n += 1
+            same = isinstance(got, dt.datetime) and (got == want if (got.tzinfo is None) == (want.tzinfo is None) else False)
+            if wname == 'timezone-aware datetime' and isinstance(got, dt.datetime) and got.tzinfo is None:
+                same = False
+            if not same:
+                bad[wname].append((text, got))
+    return bad, n
+
+
 def datelang(run, p):
-    run.rule('C01-DATELANG', 'every string the writer can emit for a date bound (str(date), str(datetime), trusted grammar) is accepted by '
-                             'one of the regexes get_date tries; each regex has exactly the number of groups get_date reads; the digit '
-                             'groups are converted with exact integer arithmetic only')
-    f, readers = date_reader(p)
-    pats = [pat for name, pat, L in readers]
+    run.rule('C01-DATELANG', 'every string the writer can emit for a date bound (str(date), str(datetime)) is re-read by get_date as the '
+                             'same moment: the writer\'s language is included in the language of the regexes get_date tries (automaton '
+                             'inclusion, over all strings), and get_date, evaluated on %d strings written by str() - every calendar '
+                             'edge, microseconds of every digit pattern, time zones - returns the datetime that was written, exactly'
+                             % sum(len(v) for v in date_samples().values()))
+    f = p.fn('tdda.constraints.base.get_date')
+    try:
+        _f, readers = date_reader(p)
+    except AnalysisError as e:
+        readers = None
+        run.note('C01-DATELANG', 'reader regexes not found in the known form (%s): decided by evaluation of get_date alone' % e, fn=f)
+    bad, n_eval = date_eval(p, f)
+    pats = [pat for name, pat, L in readers] if readers else []
     for wname, w in (('date', W_DATE), ('naive datetime', W_NAIVE), ('timezone-aware datetime', W_AWARE)):
-        try:
-            cex = reglang.not_included(w, pats, ALPHABET)
-        except reglang.Unsupported as e:
-            raise AnalysisError('date regex not interpretable: %s' % e)
-        run.ob('C01-DATELANG', 'tdda/constraints/base.py::get_date::writer:%s' % wname, cex is None,
-               'str(%s) %s' % (wname, 'is always re-read as a date' if cex is None else
-                               'can be %r, which no reader regex (%s) accepts: the bound comes back as a string' % (cex, ', '.join(n for n, _, _ in readers))),
-               fn=f)
-    for name, pat, L in readers:
+        cex = None
+        if readers:
+            try:
+                cex = reglang.not_included(w, pats, ALPHABET)
+            except reglang.Unsupported as e:
+                raise AnalysisError('date regex not interpretable: %s' % e)
+        ev = bad[wname]
+        msg = 'str(%s) is always re-read as the date written' % wname
+        if cex is not None:
+            msg = 'str(%s) can be %r, which no reader regex (%s) accepts: the bound comes back as a string' % (
+                wname, cex, ', '.join(nm for nm, _, _ in readers))
+        elif ev:
+            msg = 'str(%s) can be %r, which get_date reads back as %r' % (wname, ev[0][0], ev[0][1])
+        run.ob('C01-DATELANG', 'tdda/constraints/base.py::get_date::writer:%s' % wname, cex is None and not ev, msg, fn=f)
+    for name, pat, L in readers or ():
         g = reglang.groups(pat)
         run.ob('C01-DATELANG', 'tdda/constraints/base.py::get_date::groups:%s' % name, g == L,
                '%s has %d groups, get_date reads %s' % (name, g, L), fn=f, nontrivial=False)
-    inexact = [n for n in ast.walk(f.node) if (isinstance(n, ast.Call) and getattr(n.func, 'id', None) in ('float', 'round'))
-               or (isinstance(n, ast.BinOp) and isinstance(n.op, (ast.Div, ast.Mult, ast.Pow)))]
-    run.ob('C01-DATELANG', 'tdda/constraints/base.py::get_date::exact', not inexact,
-           'date components are converted with int() only' if not inexact else 'inexact arithmetic on a date component: %s' % norm(inexact[0]), fn=f,
+    inexact = [x for x in ast.walk(f.node) if (isinstance(x, ast.Call) and getattr(x.func, 'id', None) in ('float', 'round'))
+               or (isinstance(x, ast.BinOp) and isinstance(x.op, (ast.Div, ast.Mult, ast.Pow)))]
+    wrong = bad['naive datetime'] + bad['date']
+    run.ob('C01-DATELANG', 'tdda/constraints/base.py::get_date::exact', not inexact or not wrong,
+           'date components are converted exactly (%d strings evaluated)' % n_eval if not (inexact and wrong) else
+           'inexact arithmetic on a date component: %s; e.g. %r is read back as %r' % (norm(inexact[0]), wrong[0][0], wrong[0][1]), fn=f,
            node=inexact[0] if inexact else None)
     # writer: date-typed values are stringified with str()
     w = p.method('Constraint', 'to_dict_value')
     src = ast.unparse(w.node)
     ok = 'str(self.value)' in src and 'datetime.datetime' in src and 'datetime.date' in src
     run.ob('C01-DATELANG', 'tdda/constraints/base.py::Constraint.to_dict_value::writer', ok, 'date values are rendered with str()', fn=w, nontrivial=False)
-    run.floor('C01-DATELANG', 3 + len(readers), 6)
+    run.floor('C01-DATELANG', n_eval, 100)
 
 
 def rexclosure(run, p):
